@@ -25,7 +25,7 @@ theorem sync_inv (db : DB) (inv : DiskInv db) (hs : SizeOK db) :
     rw [this]
     exact ⟨inv, rfl, by simpa using hp, rfl⟩
   | false =>
-    obtain ⟨L, hL, invL, absL, pL, oL⟩ := sync_logWritten db inv hp hs.1
+    obtain ⟨L, hL, invL, absL, pL, oL, _, _, _⟩ := sync_logWritten db inv hp hs.1
     rw [hL]
     split
     · have hwf : IndexWF L.index :=
